@@ -235,7 +235,7 @@ impl SixelParser {
                 cur_line[offset + 3] = 0xFF;
             }
         }
-        self.sixel_cursor.x += 1;
+        self.sixel_cursor.x = self.sixel_cursor.x.checked_add(1).ok_or(ParserError::InvalidPictureSize)?;
         Ok(())
     }
 
